@@ -318,6 +318,56 @@ class Codec(Suite):
             yield {"g": "shrunk", "v": v}
 
 
+class BigTwins(Suite):
+    """Size x encoding twins: one value far above every buffer (1 MB ... beyond 16 MiB of text) in the spelling each
+    encoder gives it (raw UTF-8 vs \\uXXXX escapes; BMP vs astral), decoded as str and as bytes under both configurations.
+    Everything happens inside the worker processes; only verdicts come back.  Oracle only."""
+    name = "big-twins"
+    uses_model = False
+
+    def cases(self, ctx, budget):
+        M = 1 << 20
+        specs = [
+            {"unit": [0xE9], "count": 3 * M},                # 3 Mi chars: ~3 Mi chars raw (6 MiB as bytes), 18 Mi chars escaped
+            {"unit": [0x1F600], "count": 3 * M // 2},        # astral: 12 characters per character when escaped
+            {"unit": [97], "count": M},                       # plain 1 MiB
+            {"unit": [0x2028, 0x22, 0x5C, 0xE9], "count": M // 4},
+            {"unit": [0xE9], "count": M, "wrap": False},
+        ]
+        if budget != "quick":
+            specs += [{"unit": [0x4E2D, 97], "count": 4 * M}, {"unit": [97], "count": 17 * M}, {"unit": [0xE9, 0x1F600], "count": M}]
+        return [{"g": "big-twins", "spec": sp} for sp in specs]
+
+    def impl_batch(self, cases):
+        wo, ws = J.worker(block_orjson=False), J.worker(block_orjson=True)
+        specs = [c["spec"] for c in cases]
+        wo.send({"op": "bigtwins", "specs": specs})
+        ws.send({"op": "bigtwins", "specs": specs})
+        a, b = wo.recv()["out"], ws.recv()["out"]
+        return [{"o": x, "s": y} for x, y in zip(a, b)]
+
+    def oracle(self, case, o):
+        for tag, r in o.items():
+            name = "orjson importable" if tag == "o" else "orjson absent"
+            if r.get("own_exc") or r.get("own_roundtrip") is False:
+                return (f"big-document/own/{tag}", f"a {r['chars']}-character string does not survive dumps+loads ({name}): {r.get('own_exc')}", None)
+            for k in ("raw/str", "raw/bytes", "escaped/str", "escaped/bytes"):
+                if r.get(k) is not True:
+                    sp, form = k.split("/")
+                    return (f"big-document/{k}/{tag}", f"a {r['chars']}-character string written as the {'orjson' if sp == 'raw' else 'stdlib'} encoder writes it "
+                            f"({r['text_chars'][sp]} characters of text), given as {form}: {r.get(k)} ({name})", {"decodes_to": "the value"})
+        return None
+
+    def kind(self, case, o):
+        return f"big-twins/{o['o'].get('chars')}chars/escaped={o['o'].get('text_chars', {}).get('escaped')}"
+
+    def shrink_candidates(self, case):
+        sp = case["spec"]
+        for c in (sp["count"] // 2, sp["count"] - (1 << 16)):
+            if c > 0:
+                yield {"g": "big-twins", "spec": dict(sp, count=c)}
+
+
 INDENTED = {"indent2", "indent0", "indent4", "file-indent2"}
 HOWS = ["indent2", "indent0", "indent4", "indentNone", "compact-seps", "utf8", "sort_keys", "default-str", "pydantic-base", "file", "file-indent2"]
 READS = ["str", "bytes", "bytearray", "file-text", "file-bytes"]
@@ -495,7 +545,7 @@ _codec = Codec()
 
 
 def suites():
-    return [_codec, EntryPoints(), ForeignTexts()]
+    return [_codec, EntryPoints(), ForeignTexts(), BigTwins()]
 
 
 def extra(ctx, tier):
